@@ -210,7 +210,14 @@ impl<'a, 'b> ElemGen<'a, 'b> {
             ps.push("U: Iterator<Item = T>".into());
         }
         if rng.chance(1, 3) {
-            ps.push("const N: usize".into());
+            // (a const parameter may stand in front of the type parameters: the list is handed on in the
+            // order it was written)
+            if rng.chance(1, 3) {
+                let at = ps.iter().position(|p| !p.starts_with('\'')).unwrap_or(ps.len());
+                ps.insert(at, "const N: usize".into());
+            } else {
+                ps.push("const N: usize".into());
+            }
         }
         let wh = match rng.below(7) {
             0 | 1 => " where T: Default, Vec<T>: Clone".to_string(),
